@@ -87,6 +87,95 @@ const row = [10, 20, 30]
 last = row.remove(2)
 OBS last
 """),
+    # ---- a fixed-shape list whose slots are only COMPATIBLE with one another (`[int?, int]` reads as `[int?...]`) must not
+    #      get the open-list methods that move values between slots (reverse, remove) or hand the list out under the
+    #      wider element type (join returns the receiver): a nil would land in the slot typed `int` (hunt 4 B/1 = C/4)
+    ("slot-shuffle-reverse", "reject", """
+const x: [int?, int] = [nil, 5]
+x.reverse()
+OBS x[1]
+"""),
+    ("slot-shuffle-remove", "reject", """
+const x: [int?, int, int?] = [1, 2, nil]
+x.remove(0)
+OBS x[1]
+"""),
+    ("slot-shuffle-join-hands-out-the-receiver", "reject", """
+const c: [int?, int] = [nil, 2]
+e: [int?...] = []
+d = c.join(e)
+d[1] = nil
+OBS c[1]
+"""),
+    ("slot-shuffle-reverse-through-a-parameter", "reject", """
+f = fn(p: [int?, int]) -> int {
+	p.reverse()
+	return p[1]
+}
+a: int? = nil
+OBS f([a, 5])
+"""),
+    ("slot-shuffle-reverse-str-slots", "reject", """
+const x: [str?, str, str] = [nil, "a", "b"]
+x.reverse()
+OBS x[2]
+"""),
+    ("slot-shuffle-reverse-in-a-field", "reject", """
+class Box {
+	v: [int?, int]
+	constructor(self) {
+		self.v = [nil, 7]
+	}
+	fn flip(self) -> int {
+		const w = self.v
+		w.reverse()
+		return w[1]
+	}
+}
+bx = Box()
+OBS bx.flip()
+"""),
+    ("slot-shuffle-controls-all-slots-alike", "accept", """
+const u: [int?, int?] = [nil, 5]
+u.reverse()
+OBS u[1]
+const v: [int, int, int] = [1, 2, 3]
+v.reverse()
+OBS v[0]
+OBS v.remove(0)
+const w: [int?, int?] = [nil, 4]
+e: [int?...] = [6]
+j = w.join(e)
+OBS j
+"""),
+    # ---- list types are covariant in the optional-ness of their element although lists are shared by reference
+    #      (hunt 4 B/2 = C/5; the repository's own test class::field_of_self relies on the widening: KNOWN finding)
+    ("covariant-list-initializer", "accept", """
+a: [int...] = [1, 2]
+b: [int?...] = a
+b[0] = nil
+OBS a[0]
+"""),
+    ("covariant-list-argument", "accept", """
+a: [int...] = [1, 2]
+f = fn(b: [int?...]) {
+	b.push(nil)
+}
+f(a)
+OBS a[2]
+"""),
+    ("covariant-list-nested", "accept", """
+a: [[int...]...] = [[1, 2]]
+b: [[int?...]...] = a
+b[0][0] = nil
+OBS a[0][0]
+"""),
+    ("covariant-list-fixed-shape-as-open", "accept", """
+const x: [int, int] = [1, 2]
+y: [int?...] = x
+y[0] = nil
+OBS x[0]
+"""),
     # ---- all-paths-return analysis (function.rs / if_statement.rs / scope.rs)
     ("if-returns-else-does-not", "reject", """
 f = fn(x: int) -> int {
@@ -1918,6 +2007,11 @@ UNDETERMINED_NAME_FINDING = "catalogue:undetermined-literal-type-under-a-name"
 NEIGHBOUR_COERCION_FINDING = "catalogue:fixed-list-coerced-to-open-by-neighbour-comparison"
 MODULE_CLASS_FINDING = "catalogue:module-class-read-without-call-typed-as-instance"
 UNASSIGNED_FIELD_FINDING = "catalogue:field-never-assigned-by-constructor"
+SLOT_SHUFFLE_FINDING = "catalogue:fixed-list-slots-shuffled-by-open-list-method"
+COVARIANT_LIST_FINDING = "catalogue:list-element-optionality-is-covariant"
+# entries whose observations have a PLAIN static type by construction: a nil there is the defect (the general judge is
+# silent about nil because nil is admissible wherever an optional may flow)
+PLAIN_OBSERVATIONS = (SLOT_SHUFFLE_FINDING, COVARIANT_LIST_FINDING)
 
 
 def finding_class(name):
@@ -1932,6 +2026,10 @@ def finding_class(name):
         return MODULE_CLASS_FINDING
     if name.startswith("field-unassigned-"):
         return UNASSIGNED_FIELD_FINDING
+    if name.startswith("slot-shuffle-"):
+        return SLOT_SHUFFLE_FINDING
+    if name.startswith("covariant-list-"):
+        return COVARIANT_LIST_FINDING
     if name.startswith("unpack-map-keyed-by-"):
         return "catalogue:unpack-of-a-map"
     return "catalogue:" + name
